@@ -401,7 +401,7 @@ def run_constructed(case):
             exp[k] = [(t, float(f(v))) for t, v in exp[k]]
         got = _kg_paths(kg)
         for k in exp:
-            if [(repr(a), repr(b)) for a, b in got[k]] != [(repr(a), repr(b)) for a, b in exp[k]]:
+            if got[k] != exp[k]:  # float equality: the same number digit for digit (0.0 and -0.0 are one number, written '0')
                 raise Violation("modify-not-exactly-once" if k in hit else "other-tier-touched",
                                 f"after {fname} on {target}: tier {k} holds {got[k]}, expected {exp[k]} (share={case['share']})")
     if any([tuple(x) for x in lst] != template for lst in given):
@@ -412,7 +412,7 @@ def run_constructed(case):
     if sorted(back) != sorted(exp):
         raise Violation("hierarchy", f"reopened: {sorted(back)} != {sorted(exp)}")
     for k in exp:
-        if [(repr(a), repr(b)) for a, b in back[k]] != [(repr(a), repr(b)) for a, b in exp[k]]:
+        if back[k] != exp[k]:
             raise Violation("roundtrip-values", f"tier {k} reopened as {back[k]}, expected {exp[k]}")
     cl = ["constructed"] + (["shared_point_list"] if case["share"] else []) + (["modified"] if case["mods"] else [])
     return {"classes": cl, "nontrivial": bool(case["mods"]) and bool(template)}
